@@ -8,6 +8,7 @@ import (
 	"go/token"
 	"go/types"
 	"sort"
+	"strings"
 
 	"golang.org/x/tools/go/packages"
 )
@@ -113,15 +114,39 @@ func (j *copyJudge) fresh(e ast.Expr, T types.Type) bool {
 		return true
 	}
 	if isEmptyInterface(T) {
+		// a payload (default, constant, hint, constraint argument): it can hold a list, a map or an IR node, so it goes
+		// through the IR's value copier; constants and nil have nothing to share
 		j.pay++
-		return true // payload, shallow by design (clause 3 guards it)
+		if isNilIdent(j.info, e) {
+			return true
+		}
+		if tv, ok := j.info.Types[e]; ok && tv.Value != nil {
+			return true
+		}
+		if c, ok := e.(*ast.CallExpr); ok {
+			if fn := callee(j.info, c); fn != nil && fn.Name() == "deepCopyValue" {
+				return true
+			}
+		}
+		return j.fail("payload %s is copied by assignment: a list, a map or an IR node held by it (an array default, the disjunction stored in a hint) stays shared between the copy and the original", exprString(e))
 	}
 	if isNilIdent(j.info, e) {
 		return true
 	}
+	if ta, ok := e.(*ast.TypeAssertExpr); ok {
+		// deepCopyValue(x).([]any)
+		if c, ok := ast.Unparen(ta.X).(*ast.CallExpr); ok {
+			if fn := callee(j.info, c); fn != nil && fn.Name() == "deepCopyValue" {
+				return true
+			}
+		}
+	}
 	switch x := e.(type) {
 	case *ast.CallExpr:
 		if isCopyCall(j.info, x) {
+			return true
+		}
+		if fn := callee(j.info, x); fn != nil && fn.Name() == "deepCopyValue" {
 			return true
 		}
 		if isBuiltinCall(j.info, x, "make") || isBuiltinCall(j.info, x, "new") {
@@ -144,6 +169,7 @@ func (j *copyJudge) fresh(e ast.Expr, T types.Type) bool {
 				}
 				if isEmptyInterface(sl.Elem()) {
 					j.pay++
+					return j.fail("append(…, %s...) copies payload elements by assignment: lists, maps and IR nodes held by them stay shared", exprString(x.Args[len(x.Args)-1]))
 				}
 				return true
 			}
@@ -393,7 +419,7 @@ func (j *copyJudge) mentionsField(e ast.Node, src types.Object, f *types.Var) bo
 }
 
 func checkC18(ctx *Ctx, r *Report) {
-	r.Explanation = "Decided for every DeepCopy method of cog (enumerated by signature): (1) coverage — every declared field of the receiver struct is produced in the result from the same field of the source, on a path not guarded by anything but a nil/len test of that field; (2) alias freedom — a field whose type transitively contains a pointer, slice or map is produced by a recognised copying producer (DeepCopy call, &fresh local, fresh literal, make + element-wise loop, append onto fresh storage of reference-free elements, tools.Map / orderedmap.Map.Map with a copying mapper); (3) `any`-typed payloads are shared by design, so no code in cog may store through a type assertion / index of such a payload; (4) compiler.Passes.Process works on the copy only."
+	r.Explanation = "Decided for every DeepCopy method of cog (enumerated by signature): (1) coverage — every declared field of the receiver struct is produced in the result from the same field of the source, on a path not guarded by anything but a nil/len test of that field; (2) alias freedom — a field whose type transitively contains a pointer, slice or map is produced by a recognised copying producer (DeepCopy call, &fresh local, fresh literal, make + element-wise loop, append onto fresh storage of reference-free elements, tools.Map / orderedmap.Map.Map with a copying mapper); (3) `any`-typed payloads (defaults, constants, hints, constraint arguments) are produced by the IR's value copier deepCopyValue, which has a case for JSON-like lists and objects and for every reference-carrying type cog stores in a hint; no code in cog stores through a type assertion / index of such a payload; (3b) Object.Equal does not tell nil from empty (a copy is equal to its original); (4) compiler.Passes.Process works on the copy only."
 	r.NotCovered = "nil-vs-empty distinctions (a nil slice/map may become empty: equal under JSON, different under cmp.Equal — 'equal in every declared field' is read up to nil/empty); ad-hoc copies made without a DeepCopy method (see C07/C17 ownership rules); mutation of payloads through reflection."
 	r.Exhaustive = true
 
@@ -406,6 +432,8 @@ func checkC18(ctx *Ctx, r *Report) {
 	r.Floor("fields checked for coverage", 80)
 	c18Helpers(ctx, r)
 	c18Payloads(ctx, r)
+	c18ValueCopierTotal(ctx, r)
+	c18EqualEquatesEmpty(ctx, r)
 	checkProcessCopiesFirst(ctx, r, "copycheck/use")
 }
 
@@ -564,7 +592,7 @@ func c18Method(ctx *Ctx, r *Report, m copyMethod) {
 			if shallowFields[f] {
 				// covered by the shallow copy; alias-free only if a later assignment replaces it with a fresh value
 				r.OK("copycheck/coverage", cons, shallow.Pos(), "covered by the initial by-value copy of the whole struct")
-				if !typeContainsRef(f.Type()) || isEmptyInterface(f.Type()) {
+				if !typeContainsRef(f.Type()) {
 					continue
 				}
 				r.Count("reference-bearing fields checked for alias freedom", 1)
@@ -623,8 +651,7 @@ func c18Method(ctx *Ctx, r *Report, m copyMethod) {
 				continue
 			}
 			if isEmptyInterface(f.Type()) {
-				r.Count("payload fields shared by design", 1)
-				continue
+				r.Count("payload fields checked for the value copier", 1)
 			}
 			r.Count("reference-bearing fields checked for alias freedom", 1)
 			allFresh := true
@@ -1110,4 +1137,132 @@ func isCallOf(info *types.Info, e ast.Expr, fn types.Object) bool {
 	}
 	id, ok := ast.Unparen(c.Fun).(*ast.Ident)
 	return ok && objOf(info, id) == fn
+}
+
+// c18ValueCopierTotal: the IR's `any` fields are copied by deepCopyValue, a type switch. It is only as good as its
+// cases: (a) JSON-like values — []any and map[string]any — have a case each; (b) every static type that cog itself
+// stores into a hint (`x.Hints[k] = v`) and that can share storage (contains a pointer, slice or map) has a case.
+func c18ValueCopierTotal(ctx *Ctx, r *Report) {
+	fn := ctx.LookupFunc("internal/ast", "deepCopyValue")
+	fd, p := ctx.DeclOf(fn)
+	if fd == nil || fd.Body == nil {
+		r.Bad("copycheck/value-copier-total", "internal/ast.deepCopyValue", token.NoPos, "the IR has no copier for the values held by its `any` fields: defaults, constants and hints are copied by assignment and share their lists, maps and IR nodes with the original")
+		return
+	}
+	info := p.TypesInfo
+	var cases []types.Type
+	ast.Inspect(fd.Body, func(n ast.Node) bool {
+		cc, ok := n.(*ast.CaseClause)
+		if !ok {
+			return true
+		}
+		for _, e := range cc.List {
+			if t := info.TypeOf(e); t != nil {
+				cases = append(cases, t)
+			}
+		}
+		return true
+	})
+	has := func(t types.Type) bool {
+		for _, c := range cases {
+			if types.Identical(c, t) {
+				return true
+			}
+		}
+		return false
+	}
+	anyT := types.NewInterfaceType(nil, nil)
+	for _, want := range []struct {
+		t    types.Type
+		name string
+	}{{types.NewSlice(anyT), "[]any"}, {types.NewMap(types.Typ[types.String], anyT), "map[string]any"}} {
+		r.Check(has(want.t), "copycheck/value-copier-total", "deepCopyValue case "+want.name, fd.Pos(), "lists / objects decoded from JSON, YAML or CUE are copied element by element",
+			"deepCopyValue has no case for "+want.name+": an array or object default (`[\"a\",\"b\"]`) stays shared between a copy and its original")
+	}
+	// what cog stores in hints
+	stored := map[string]types.Type{}
+	var at = map[string]token.Pos{}
+	for _, pk := range ctx.Pkgs {
+		pinfo := pk.TypesInfo
+		for _, f := range pk.Syntax {
+			ast.Inspect(f, func(n ast.Node) bool {
+				as, ok := n.(*ast.AssignStmt)
+				if !ok || len(as.Lhs) != 1 || len(as.Rhs) != 1 {
+					return true
+				}
+				ix, ok := ast.Unparen(as.Lhs[0]).(*ast.IndexExpr)
+				if !ok {
+					return true
+				}
+				if ff := fieldOf(pinfo, ix.X); ff == nil || ff.Name() != "Hints" {
+					return true
+				}
+				t := pinfo.TypeOf(as.Rhs[0])
+				if t == nil || isEmptyInterface(t) || !typeContainsRef(t) {
+					return true
+				}
+				key := types.TypeString(t, func(p *types.Package) string { return p.Name() })
+				if _, seen := stored[key]; !seen {
+					stored[key] = t
+					at[key] = as.Pos()
+				}
+				return true
+			})
+		}
+	}
+	var keys []string
+	for k := range stored {
+		keys = append(keys, k)
+	}
+	sort.Strings(keys)
+	for _, k := range keys {
+		r.Check(has(stored[k]), "copycheck/value-copier-total", "deepCopyValue case "+k, at[k], "values of this type stored in hints are deep-copied",
+			"cog stores a "+k+" in Type.Hints and deepCopyValue has no case for it: the copy of a type keeps the very node (branches, mapping) of the original in its hint — a pass run on one rewrites the other")
+	}
+	r.Count("reference-carrying types stored in hints", len(keys))
+	r.Floor("reference-carrying types stored in hints", 1)
+}
+
+// c18EqualEquatesEmpty: "a copy is equal to its original" is decided by Object.Equal, and the DeepCopy methods do not
+// preserve the difference between nil and empty (append onto nil, make of length 0). Every deep comparison in
+// Object.Equal of a field that can be nil or empty is made with cmpopts.EquateEmpty().
+func c18EqualEquatesEmpty(ctx *Ctx, r *Report) {
+	fn := ctx.LookupMethod("internal/ast", "Object", "Equal")
+	fd, p := ctx.DeclOf(fn)
+	if fd == nil || fd.Body == nil {
+		r.Undecided("anchor lost: ast.Object.Equal")
+		return
+	}
+	info := p.TypesInfo
+	n := 0
+	ast.Inspect(fd.Body, func(m ast.Node) bool {
+		c, ok := m.(*ast.CallExpr)
+		if !ok || len(c.Args) < 2 {
+			return true
+		}
+		f := callee(info, c)
+		if f == nil || f.Pkg() == nil || f.Pkg().Path() != "github.com/google/go-cmp/cmp" || f.Name() != "Equal" {
+			return true
+		}
+		t := info.TypeOf(c.Args[0])
+		if t == nil || !typeContainsRef(t) {
+			return true
+		}
+		// RefType holds two strings behind no pointer: nothing to equate; slices, maps and types do
+		if n2 := namedOf(t); n2 != nil && n2.Obj().Name() == "RefType" {
+			return true
+		}
+		n++
+		equates := false
+		for _, a := range c.Args[2:] {
+			if strings.Contains(exprString(a), "EquateEmpty") {
+				equates = true
+			}
+		}
+		r.Check(equates, "copycheck/equal-equates-empty", "ast.Object.Equal compares "+exprString(c.Args[0]), c.Pos(), "with cmpopts.EquateEmpty()",
+			"Object.Equal compares "+exprString(c.Args[0])+" with cmp.Equal, which tells a nil slice / map from an empty one, and DeepCopy does not preserve that difference: an object loaded from a schema is not equal to its own copy, and a schema cannot be merged with a copy of itself (\"conflicting definition\")")
+		return true
+	})
+	r.Count("deep comparisons in Object.Equal", n)
+	r.Floor("deep comparisons in Object.Equal", 2)
 }
